@@ -3,6 +3,7 @@ CONSTANTS HW = 7
           Anchors = {1}
           NMax = 8
           GenMod = 1
+          TPad = 2
 INIT Init
 NEXT Eval
 INVARIANT AdjustLaw
